@@ -43,6 +43,20 @@ def rule_instances(ref, s, typed, R):
         for a in segs[-1].split(","):
             members += ref.alias.get(a.strip(), [a.strip()])
         yield ("alias", segs[-1], ["/".join(segs[:-1] + [m]) + qs for m in members], None)
+    # (1b) a ',' list, or an alias, as a filter value (distributed like one in the path)
+    if q and "?" not in q:
+        pairs = [pq.split("=", 1) for pq in q.split("&") if "=" in pq]
+        leaf_keys = {v for v in ref.leaf_keys.values() if v}
+        for i, (k, v) in enumerate(pairs):
+            alts = None
+            if "," in v:
+                alts, rule = [a.strip() for a in v.split(",")], "comma"
+                if k in leaf_keys and any(a in ref.alias for a in alts):
+                    alts, rule = [m for a in alts for m in ref.alias.get(a, [a])], "alias"
+            elif k in leaf_keys and v in ref.alias:
+                alts, rule = list(ref.alias[v]), "alias"
+            if alts:
+                yield (rule, ["filter", k], [path + "?" + "&".join("=".join(p2) if j != i else k + "=" + a for j, p2 in enumerate(pairs)) for a in alts], None)
     if ">" in s:
         return
     # (4) filters on keys every typed search has
